@@ -569,7 +569,10 @@ fn parse_vars(s: &str) -> Vec<(String, f32)> {
 
 fn apply_vars(face: &mut Face, vars: &[(String, f32)]) {
     for (k, v) in vars {
-        if k.len() == 4 {
+        if k == "ppem" {
+            let p = *v as u16;
+            face.set_pixels_per_em(Some((p, p)));
+        } else if k.len() == 4 {
             let tag = rustybuzz::ttf_parser::Tag::from_bytes_lossy(k.as_bytes());
             face.set_variation(tag, *v);
         }
@@ -647,11 +650,21 @@ fn rv(rng: &mut Rng) -> i16 {
 }
 
 fn rvr(rng: &mut Rng) -> ValueRecord {
-    match rng.below(5) {
+    let mut v = match rng.below(5) {
         0 => ValueRecord::new(0, 0, 0, rv(rng) | 1), // only a y_advance
         1 => ValueRecord::new(0, 0, rv(rng) | 1, 0), // only an x_advance
         _ => ValueRecord::new(rv(rng), rv(rng), rv(rng), rv(rng)),
+    };
+    // hinting device tables (active only when the face has a ppem inside their size range)
+    if rng.chance(1, 3) {
+        for k in 0..4 {
+            if rng.chance(1, 2) {
+                let start = 9 + rng.below(4) as u16;
+                v.devices[k] = Some(DeviceSpec { start_size: start, end_size: start + rng.below(4) as u16, delta: (rng.range(1, 9) as i8) * if rng.chance(1, 2) { 1 } else { -1 } });
+            }
+        }
     }
+    v
 }
 
 fn ranchor(rng: &mut Rng) -> Option<Anchor> {
@@ -810,12 +823,16 @@ fn cmd_gen(args: &[String]) {
             continue;
         }
         let bytes = build(&spec);
-        let Some(face) = Face::from_slice(&bytes, 0) else {
+        let Some(mut face) = Face::from_slice(&bytes, 0) else {
             println!("anomaly gen-font {} rejected", fi);
             continue;
         };
         let hx = hex(&bytes);
         for _ in 0..per {
+            // half of the requests with a pixel size (device tables become active)
+            let ppem: Option<u16> = if rng.chance(1, 2) { Some(8 + rng.below(10) as u16) } else { None };
+            face.set_pixels_per_em(ppem.map(|p| (p, p)));
+            let var = match ppem { Some(p) => format!("ppem={}", p), None => "-".to_string() };
             let mut base = Req::default();
             let len = rng.range(1, 9);
             for i in 0..len {
@@ -832,7 +849,8 @@ fn cmd_gen(args: &[String]) {
                 req.dir = d;
                 let r2 = req.clone();
                 let hx2 = &hx;
-                let describe = move || format!("fonthex={} index=0 var=- req={}", hx2, fmt_req(&r2).replace(' ', "~"));
+                let var2 = var.clone();
+                let describe = move || format!("fonthex={} index=0 var={} req={}", hx2, var2, fmt_req(&r2).replace(' ', "~"));
                 let before = st.nontrivial;
                 shape_checked(&face, &req, &mut st, &describe, true);
                 if st.nontrivial > before {
